@@ -41,6 +41,10 @@ var classes = []classSpec{
 	{`(?s:.)`, []string{"a", "\n", "日"}},
 	{`\S`, []string{"a", "é", "-"}},
 	{`\W`, []string{" ", "-", "é", "\n"}},
+	// the two cases of one letter (the regexp parser turns these into case-folding literals on its own)
+	{`[xX]`, []string{"x", "X"}},
+	{`[eE]`, []string{"e", "E"}},
+	{`[kK]`, []string{"k", "K", "\u212a"}},
 	// many ranges (a negated class over scattered characters ends in a range that crosses U+FFFF) and astral input
 	{`[^\s"'(),;\[\]{}]`, []string{"a", "é", "\U0001F600", "-", "\U0001F64F", "\uffff", "\U00010000"}},
 	{`[a-cx-z0-37-9_A-CX-Z!-#\x{1F600}-\x{1F64F}é]`, []string{"b", "y", "8", "_", "\U0001F600", "é", "#"}},
@@ -246,7 +250,20 @@ func GenPat(t *rapid.T, depth int, o PatOpts) *Pat {
 	case 12:
 		// corner shapes: an empty alternative, a repetition whose body can match nothing
 		x := GenPat(t, depth-1, o)
-		switch rapid.IntRange(0, 9).Draw(t, "corner") {
+		switch rapid.IntRange(0, 11).Draw(t, "corner") {
+		case 10, 11:
+			// alternatives of which an earlier one is a prefix of a later one (leftmost-first: the shorter one wins;
+			// the regexp parser factors them into prefix(?:|rest))
+			pair := rapid.SampledFrom([][2]string{{"a", "ab"}, {"ab", "abc"}, {"k", "key"}, {"1", "12"}, {"<", "<="}, {"in", "int"}, {"é", "é日"}}).Draw(t, "prefixpair")
+			alt := &Pat{Kind: "alt", Kids: []*Pat{{Kind: "lit", Text: pair[0]}, {Kind: "lit", Text: pair[1]}}}
+			if rapid.IntRange(0, 2).Draw(t, "thirdalt") == 0 {
+				alt.Kids = append(alt.Kids, x)
+			}
+			g := &Pat{Kind: "group", Cap: rapid.IntRange(0, 3).Draw(t, "altcap") == 0, Kids: []*Pat{alt}}
+			if rapid.Bool().Draw(t, "altalone") {
+				return g
+			}
+			return &Pat{Kind: "cat", Kids: []*Pat{g, x}}
 		case 8, 9:
 			// a case-insensitive literal of several characters whose folded forms differ in UTF-8 length
 			// (k / KELVIN SIGN, s / LONG S): byte lengths and character counts disagree
